@@ -181,6 +181,7 @@ def _direct_case(rng, counters):
             raise Violation(f"solve_sylvester_direct call raised {type(e).__name__}: {e}")
     counters["direct_calls"] += n_calls
     counters["direct_degenerate"] += int(spec["degenerate"] and max(c["sizes"]) >= 2)
+    counters["direct_structured_degenerate"] += int(bool(spec.get("structured")) and spec["degenerate"] and max(c["sizes"]) >= 2)
     counters["direct_real_h0_complex_rhs"] += int((not spec["complex"]) and cplx_rhs)
     return True, ["direct", spec["hermitian"], spec["complex"], c["sizes"], N, spec["degenerate"], cplx_rhs], dict(kind="direct", **{k_: v for k_, v in spec.items()})
 
@@ -200,13 +201,18 @@ def _greens_case(rng, counters):
     E = rng.choice(np.arange(0, 30), size=N, replace=False) * 0.5
     E0 = E[0]
     E[:kdim] = E0 if kdim else E[:kdim]
-    if normal:
+    structured = bool(rng.random() < 0.35)  # eigenvectors of decoupled subsystems: sparse, disjoint supports
+    if structured:
+        R = implicit.structured_basis(rng, N, cplx, normal)
+        L = R if normal else np.linalg.inv(R).conj().T
+    elif normal:
         Q = np.linalg.qr(rnd((N, N)))[0]
         R, L = Q, Q
     else:
         Q = np.linalg.qr(rnd((N, N)))[0]
         R = Q @ (np.eye(N) + 0.3 * np.triu(rnd((N, N)), 1))
         L = np.linalg.inv(R).conj().T
+    counters["greens_structured_degenerate"] += int(structured and kdim >= 2)
     H = R @ np.diag(E) @ L.conj().T
     if not cplx:
         H, R, L = H.real, R.real, L.real
@@ -222,7 +228,7 @@ def _greens_case(rng, counters):
         raise Violation(f"direct_greens_function raised {type(e).__name__}: {e}")
     counters["greens_cases"] += 1
     counters["greens_nonnormal"] += int(not normal)
-    return True, ["greens", N, cplx, normal, kdim], dict(kind="greens", N=N, complex=cplx, normal=normal, kernel_dim=kdim)
+    return True, ["greens", N, cplx, normal, kdim, structured], dict(kind="greens", N=N, complex=cplx, normal=normal, kernel_dim=kdim, structured=structured)
 
 
 def _kpm_case(rng, counters):
